@@ -156,7 +156,7 @@ class Core:
             self.on_heap_write(st, field, ref)
         st.heap[field] = z3.Store(st.H(field), V.ref(objv), val)
         st.ghost.setdefault('$writes', [])
-        st.ghost['$writes'] = st.ghost['$writes'] + [(field, V.ref(objv), list(st.pc))]
+        st.ghost['$writes'] = st.ghost['$writes'] + [(field, V.ref(objv), list(st.pc), val)]
 
     def known(self, st, cond):
         """True / False when cond is decided syntactically by the path facts, else None"""
@@ -273,11 +273,27 @@ class Core:
             return e
         return s
 
+    def _dict_truth_axiom(self, st, v):
+        """a dict is falsy exactly when it has no key: ties keys_of (iteration order) to the map"""
+        done = st.ghost.get('$dta', frozenset())
+        if v.get_id() in done:
+            return
+        st.ghost['$dta'] = done | {v.get_id()}
+        k = z3.String('dt!k')
+        m = V.m(v)
+        st.assume(qforall([k], z3.Implies(z3.And(V.is_dict(v), z3.Select(m, k) != ABSENT), z3.Length(keys_of(m)) > 0),
+                          patterns=[z3.Select(m, k)]))
+
     def truth(self, st, v):
         if isinstance(v, Static):
             return z3.BoolVal(True)
         if self.known(st, V.is_bool(v)) is True:
             return V.b(v)
+        if self.known(st, V.is_dict(v)) is not False and not (z3.is_app(v) and v.decl().kind() == z3.Z3_OP_DT_CONSTRUCTOR
+                                                               and v.decl().name() != 'dict'):
+            self._dict_truth_axiom(st, v)
+            if self.known(st, V.is_obj(v)) is not False:
+                self._dict_truth_axiom(st, self.select(st, st.H('$val'), V.ref(v)))
         k = self.known(st, V.is_obj(v))
         if k is False:
             return truthy(v)
